@@ -1396,6 +1396,11 @@ dialer_start_pipe(nni_dialer *d, nni_pipe *p)
 	nni_stat_set_id(&p->st_root, (int) p->p_id);
 	nni_stat_set_id(&p->st_id, (int) p->p_id);
 	nni_stat_register(&p->st_root);
+	if (nni_pipe_is_closed(p)) {
+		// The pipe may already have been reaped (which unregisters
+		// the stats); do not leave them registered after that.
+		nni_stat_unregister(&p->st_root);
+	}
 #endif
 	nni_pipe_run_cb(p, NNG_PIPE_EV_ADD_POST);
 	if (nng_log_get_level() >= NNG_LOG_DEBUG) {
@@ -1505,6 +1510,11 @@ listener_start_pipe(nni_listener *l, nni_pipe *p)
 	nni_stat_set_id(&p->st_root, (int) p->p_id);
 	nni_stat_set_id(&p->st_id, (int) p->p_id);
 	nni_stat_register(&p->st_root);
+	if (nni_pipe_is_closed(p)) {
+		// The pipe may already have been reaped (which unregisters
+		// the stats); do not leave them registered after that.
+		nni_stat_unregister(&p->st_root);
+	}
 #endif
 	nni_pipe_run_cb(p, NNG_PIPE_EV_ADD_POST);
 	if (nng_log_get_level() >= NNG_LOG_DEBUG) {
